@@ -7,6 +7,9 @@
 //!   `c12.xglob <pattern> <alphabet> <maxlen>` / `c12.xword …` / `c12.spec.x…`
 //!        one answer letter per text of length ≤ maxlen over the alphabet, in the canonical order
 //!        (shorter first, then first character most significant in alphabet order)
+//!        answered as `ok <letters>`
+//!   `c12.count <is> i<members>` / `c12.spec.count …`: the `room_member_count` condition whose `is`
+//!        is the given string, in a room of that many members → `t` / `f` / `err` (condition rejected)
 //!   `c12.match <ruleset> <ctx> <event>` / `c12.spec.match …` → `none` | `ok <kind> <rule id>`
 //!        ruleset = `a5` of rule arrays (override, content, room, sender, underride);
 //!        conditional rule `a3 <enabled> <id> a<k> cond…`, patterned `a3 <enabled> <id> <pattern>`,
@@ -148,7 +151,27 @@ fn run_batch(op: &str, p: &str, alphabet: &str, maxlen: usize) -> Outcome {
     if bad > t3.len() {
         t3.push(format!("… {bad} texts of this batch differ in total"));
     }
-    Outcome { imp: out, t3 }
+    // first token `ok` keeps the evidence's input distribution readable (it is keyed by that token)
+    Outcome { imp: format!("ok {out}"), t3 }
+}
+
+/// `room_member_count` with the `is` string as it arrives in JSON: the condition is deserialized by
+/// the real `PushCondition` deserializer (`RoomMemberCountIs::from_str`) and evaluated by
+/// `PushCondition::applies` in a room of `n` members. `err` = the condition is rejected.
+fn run_count(is: &str, n: u64) -> Outcome {
+    let Ok(members) = UInt::try_from(n) else { return Outcome::bad() };
+    let cond: Result<PushCondition, _> =
+        serde_json::from_value(json!({ "kind": "room_member_count", "is": is }));
+    let imp = match cond {
+        Err(_) => "err".to_owned(),
+        Ok(c) => {
+            let mut ctx = plain_ctx("");
+            ctx.member_count = members;
+            let ev = FlattenedJson::from_raw(&raw(&json!({ "sender": "@you:example.org" })));
+            tf(c.applies(&ev, &ctx)).to_string()
+        }
+    };
+    Outcome { imp, t3: vec![] }
 }
 
 // ---------------------------------------------------------------------------------------------
@@ -459,6 +482,14 @@ fn run_uncached(req: &str) -> Outcome {
                 return Outcome::bad();
             }
             run_batch(op, &p, &al, n)
+        }
+        "c12.count" | "c12.spec.count" if toks.len() == 3 => {
+            let (Some(is), Some(n)) =
+                (unhex_tok(toks[1]), toks[2].strip_prefix('i').and_then(|x| x.parse::<u64>().ok()))
+            else {
+                return Outcome::bad();
+            };
+            run_count(&is, n)
         }
         "c12.match" | "c12.spec.match" => {
             let mut it = toks[1..].iter();
